@@ -536,6 +536,7 @@ pub fn drive(check: &CheckDef, opts: &DriverOpts) -> i32 {
 
     // triage candidate violations
     let mut violations_reported = 0u64;
+    let mut slow_cases = 0u64;
     let mut known_hits: BTreeMap<String, u64> = BTreeMap::new();
     let mut off_property: BTreeMap<String, u64> = BTreeMap::new();
     let mut by_class: BTreeMap<String, Vec<Found>> = BTreeMap::new();
@@ -614,7 +615,38 @@ pub fn drive(check: &CheckDef, opts: &DriverOpts) -> i32 {
                 reported_json.push(json!({"oracle": viol.oracle, "detail": viol.detail, "replay": path, "occurrences": n}));
             }
             ReplayResult::NotReproduced(why) => {
-                harness_errors.push(format!("violation class {class} did not reproduce from {path} in a fresh process: {why}"));
+                if viol.oracle == "hang" {
+                    // The watchdog is a wall-clock cap and therefore load dependent: a case that completes when it
+                    // runs alone (with ten times the cap) was slow, not hung. Try the other occurrences of the class
+                    // before concluding that.
+                    let _ = std::fs::remove_file(&path);
+                    let mut reproduced = false;
+                    for other in fs.iter().take(8) {
+                        let mut rp = replay.clone();
+                        rp["trace"] = other.trace.clone();
+                        rp["case_index"] = json!(other.i);
+                        rp["case_seed"] = json!(other.case_seed);
+                        rp["violation"] = json!(other.violation);
+                        let h = super::rng::fnv(serde_json::to_string(&rp["trace"]).unwrap_or_default().as_bytes());
+                        let path2 = format!("{}/{}-{:016x}.json", replay_dir(), check.property, h);
+                        let _ = std::fs::write(&path2, serde_json::to_string_pretty(&rp).unwrap_or_default());
+                        if let ReplayResult::Reproduced = replay_in_subprocess(&path2, part.case_cap_s * 10) {
+                            violations_reported += 1;
+                            out_lines.push(format!("VIOLATION property={} replay={}", check.property, path2));
+                            eprintln!("  oracle={} detail={} ({} occurrences)", other.violation.oracle, other.violation.detail, n);
+                            reported_json.push(json!({"oracle": other.violation.oracle, "detail": other.violation.detail, "replay": path2, "occurrences": n}));
+                            reproduced = true;
+                            break;
+                        }
+                        let _ = std::fs::remove_file(&path2);
+                    }
+                    if !reproduced {
+                        eprintln!("NOTE: {n} case(s) of {} exceeded the {} s watchdog under load but complete when run alone: slow, not hung (not a violation)", first.scenario, part.case_cap_s);
+                        slow_cases += n as u64;
+                    }
+                } else {
+                    harness_errors.push(format!("violation class {class} did not reproduce from {path} in a fresh process: {why}"));
+                }
             }
         }
     }
@@ -626,6 +658,9 @@ pub fn drive(check: &CheckDef, opts: &DriverOpts) -> i32 {
     }
     for l in &out_lines {
         println!("{l}");
+    }
+    if slow_cases > 0 {
+        *total.counters.entry("probe.watchdog.slow_case_completed_when_run_alone".to_string()).or_insert(0) += slow_cases;
     }
     let wall = t0.elapsed().as_secs_f64();
     report::write_evidence(check, opts, &total, &part_reports, violations_reported, &known_hits, &off_property, &reported_json, &harness_errors, wall);
